@@ -366,9 +366,9 @@ Inductive outcome :=
 | OPanic
 | OOutOfFuel.
 
-Definition outcome_of (r : res) : outcome :=
+Definition outcome_of (cfg : config) (r : res) : outcome :=
   match r with
-  | ROk s => OPairs (rev (queue s))
+  | ROk s => if fixedlim cfg && limit_reached s then OCallLimit (attempt_pos s) else OPairs (rev (queue s))
   | RErr s => if limit_reached s then OCallLimit (attempt_pos s)
               else OParsingError (sort_dedup (pos_attempts s)) (sort_dedup (neg_attempts s)) (attempt_pos s)
   | RPanic _ => OPanic
@@ -378,4 +378,4 @@ Definition outcome_of (r : res) : outcome :=
 Definition run_state (cfg : config) (E : env) (fuel : nat) (p : prog) (inp : list byte) (lim : option nat) (detail : bool) : res :=
   exec cfg E fuel p (init inp lim detail).
 Definition parse_with (cfg : config) (E : env) (fuel : nat) (p : prog) (inp : list byte) (lim : option nat) (detail : bool) : outcome :=
-  outcome_of (run_state cfg E fuel p inp lim detail).
+  outcome_of cfg (run_state cfg E fuel p inp lim detail).
